@@ -322,7 +322,8 @@ func c13(c *Ctx) {
 							pos := c.P.Pos(x.Pos())
 							okM := implied(cl, func(l lit) bool { return l.Pos && (gc.isMemberS(l.E, ch) || gc.isMemberOK(l.E, ch)) })
 							okT := implied(cl, func(l lit) bool {
-								return (!l.Pos && gc.isMode(l.E, ch, 't')) || (l.Pos && gc.isChanop(l.E, ch)) || (l.Pos && gc.isOper(l.E))
+								// IRC operators may change modes (E1), not topics: the property names only channel operators here
+								return (!l.Pos && gc.isMode(l.E, ch, 't')) || (l.Pos && gc.isChanop(l.E, ch))
 							})
 							r.Check(okM, "C13.E2", name, "write "+astx.Str(l)+" requires being on the channel", pos, "dominated by s.Channels[…]",
 								"the topic is set or cleared on a path where the acting session is not provably on the channel")
